@@ -66,6 +66,7 @@ def BitFlipNoise(
         target_gates: Sequence of target gate names.
     """
 
+    _check_valid_probability(error_prob, "error_prob")
     return GateNoiseInstruction(
         name="BitFlipNoise",
         qubit_count=1,
@@ -87,6 +88,7 @@ def PhaseFlipNoise(
         qubit_indices: Sequence of target qubit indices.
         target_gates: Sequence of target gate names.
     """
+    _check_valid_probability(error_prob, "error_prob")
     return GateNoiseInstruction(
         name="PhaseFlipNoise",
         qubit_count=1,
@@ -108,6 +110,7 @@ def BitPhaseFlipNoise(
         qubit_indices: Sequence of target qubit indices.
         target_gates: Sequence of target gate names.
     """
+    _check_valid_probability(error_prob, "error_prob")
     return GateNoiseInstruction(
         name="BitPhaseFlipNoise",
         qubit_count=1,
@@ -129,6 +132,7 @@ def DepolarizingNoise(
         qubit_indices: Sequence of target qubit indices.
         target_gates: Sequence of target gate names.
     """
+    _check_valid_probability(error_prob, "error_prob")
     return GateNoiseInstruction(
         name="DepolarizingNoise",
         qubit_count=1,
